@@ -156,7 +156,11 @@ func (o *Output) Count(dim, bucket string) {
 }
 
 func (o *Output) Add(coq string, desc interface{}, nontrivial bool, tags ...string) int {
-	h := sha256.Sum256([]byte(coq))
+	src := []byte(coq)
+	if coq == "crashed" { // no Coq term: distinctness by the rendered case
+		src, _ = json.Marshal(desc)
+	}
+	h := sha256.Sum256(src)
 	id := len(o.Cases)
 	sort.Strings(tags)
 	o.Cases = append(o.Cases, Case{ID: id, Coq: coq, Desc: desc, Nontrivial: nontrivial, Tags: tags, Key: hex.EncodeToString(h[:8])})
@@ -197,4 +201,10 @@ func SizeBucket(n int) string {
 	default:
 		return "65+"
 	}
+}
+
+// Breadcrumb records the call about to be executed next to the output file, so that a fatal crash of this process
+// (not recoverable in Go) still leaves the failing call behind.
+func Breadcrumb(outPath, text string) {
+	_ = os.WriteFile(outPath+".last", []byte(text), 0o644)
 }
